@@ -13,7 +13,7 @@ import gtwrap.interface_parser as parser
 import gtwrap.template_instantiator as inst
 from gtwrap.pybind_wrapper import PybindWrapper
 
-TPL = open('/repo/templates/pybind_wrapper.tpl.example').read()
+TPL = open(common.REPO + '/templates/pybind_wrapper.tpl.example').read()
 PQUIRKS = ['q_ignored_enums', 'q_values_insert']
 
 
@@ -126,7 +126,7 @@ def pyb_known(rep, q, prop):
 def gen_cases(tier, seed, n_quick, n_thorough, opts_per_input=3, profile=None):
     """[(name, text)] - fixtures, corpus, generated"""
     out = []
-    for f in sorted(glob.glob('/repo/tests/fixtures/*.i')):
+    for f in sorted(glob.glob(common.REPO + '/tests/fixtures/*.i')):
         out.append(('fixture:' + os.path.basename(f), open(f).read()))
     for f in sorted(glob.glob(os.path.join(common.VERIF, 'corpus', 'pybind', '*.i'))):
         out.append(('corpus:' + os.path.basename(f), open(f).read()))
